@@ -182,7 +182,7 @@ def run(tier, seed, argv):
                        "grafting guard constant calibrated from the implementation, required to lie in [0, 1e-12]"]
     res = par.run_jobs(jobs, chunk=4)
     rep.validate_standin(6 if tier == "quick" else 24)
-    rep.absorb("reference-comparison", res)
+    rep.absorb("reference-comparison", res, soft=lambda j: j.startswith("r"))
     return rep.finish("checks.c01")
 
 
